@@ -30,12 +30,14 @@ def books(ctx):
     out = [('shipped example', X.load_example())]
     try:
         # the first stored workbooks have fixed pump trains: one curve-limited pump (own driver tab), two of them, a torque-limited pump between two of them,
-        # a pump without a driver limit ('None', the fourth documented value of Pump.limited) before a power-limited one
-        trains = [('curve',), ('curve', 'curve'), ('curve', 'torque', 'curve'), ('None', 'power')]
+        # a pump without a driver limit ('None', the fourth documented value of Pump.limited) before a power-limited one, a curve-limited pump followed by a copy
+        # of itself on an equal drive
+        trains = [('curve',), ('curve', 'curve'), ('curve', 'torque', 'curve'), ('None', 'power'), ('curve', 'twin')]
         for i in range(ctx.n(1, 60) + len(trains)):
             try:
                 pl, path, wb = X.stored_workbook(ctx.rng, tmp, modes=trains[i] if i < len(trains) else None)
-                out.append((f'stored #{i}' + (f' (pumps: {"+".join(trains[i])})' if i < len(trains) else ''), wb))
+                # (the trains added later carry ', ' in their label: like the variants below they get the unfaulted load plus a sample of 30 faults in the quick tier)
+                out.append((f'stored #{i}' + (f' (pumps: {"+".join(trains[i])})' if i < len(trains) else '') + (', later train' if 3 <= i < len(trains) else ''), wb))
             except Exception:   # noqa
                 continue
     finally:
